@@ -33,11 +33,11 @@ EXPLANATION = (
 ASSUMPTIONS = [
     "node names are strings over code points 0..255 (one Coq ascii per character)",
     "attribute values are opaque to the expansion; the harness uses integers in E3",
-    "_try_filling_in_missing_flow_values (networkx min-cost flow) is an external engine: stubbed out in E3, exercised end-to-end by E2",
+    "_try_filling_in_missing_flow_values: networkx' min-cost flow is an external engine; every filling it produces is judged by the verified checker FillSpec.fill_certificate_ok_b (certificate = the tapped edge flow); that nothing is filled only when no extension exists is probed, not proved",
     "the harness passes list(G.nodes), list(G.predecessors(v)), list(G.successors(v)) and the attribute dicts exactly as Python enumerates them",
     "HiGHS optimal statuses are trusted as in DESIGN section 4 (E2 compares two runs of the same solver); threads=1",
 ]
-TRUSTED = ["model: coq/theories/NodeExp.v; proofs NodeExpProofs.v; driver coq/driver/h_nodeexp.ml (character-code wire format)"]
+TRUSTED = ["FillSpec.v (contract + checker of the filling step), handler coq/driver/h_fillspec.ml", "model: coq/theories/NodeExp.v; proofs NodeExpProofs.v; driver coq/driver/h_nodeexp.ml (character-code wire format)"]
 
 TIME_LIMIT = 40.0
 SO = {"threads": 1, "time_limit": TIME_LIMIT}   # the limit is only a guard against a pathological MILP; such a case is skipped, never judged
@@ -1023,8 +1023,10 @@ def fill_case(ctx, rng, G, flow, ln, starts, ends, info, jobs):
             if fdict is not None and flow not in dict(a0):
                 ctx.report(f"fill: a flow was found but edge {e} was not filled", rep, concrete=True); return
             continue
-        if fdict is None or flow in dict(a0) or a1[:-1] != a0 or a1[-1][0] != flow or a1[-1][1] != fdict[u1][v1]:
+        if fdict is None or flow in dict(a0) or a1[:-1] != a0 or a1[-1][0] != flow:
             ctx.report(f"fill: edge {e} changed from {a0} to {a1} (flow dict: {None if fdict is None else fdict[u1].get(v1)})", rep, concrete=True); return
+        if a1[-1][1] != fdict[u1][v1]:                   # not the library's own flow value: reported, and the checker below judges the written values
+            ctx.report(f"fill: edge {e} received {a1[-1][1]}, the flow found by min_cost_flow is {fdict[u1][v1]}", rep, concrete=True)
         filled_any = True
     ids = {v: j for j, v in enumerate(G.nodes)}
     given = {v: d[flow] for v, d in G.nodes(data=True) if flow in d}
